@@ -48,7 +48,7 @@ LOCATIONS = {
 TOKEN = "Bearer caller-token"
 
 
-def chain(ctx, nhops=2, first_loc=None, methods=("GET", "POST", "PUT", "HEAD"), locs=None, small=False):
+def chain(ctx, nhops=2, first_loc=None, methods=("GET", "POST", "PUT", "HEAD"), locs=None, small=False, followup=False):
     import logging
 
     import aiohttp
@@ -101,6 +101,13 @@ def chain(ctx, nhops=2, first_loc=None, methods=("GET", "POST", "PUT", "HEAD"), 
     if send_proxy_auth:
         headers["Proxy-Authorization"] = "Basic cHJveHk="
     kw = dict(headers=headers, max_redirects=max_redirects)
+    start_url = ORIGIN0 + "/start"
+    if followup:
+        # history dimension: what one request (chain) was given must not be sent by the next one
+        if ctx.flag("url_credentials"):
+            start_url = "http://user:secret@a/start"
+        if not headers and ctx.flag("no_headers_argument"):
+            del kw["headers"]
     if send_req_cookies:
         kw["cookies"] = {"rc": "1"}
     if has_body:
@@ -111,7 +118,7 @@ def chain(ctx, nhops=2, first_loc=None, methods=("GET", "POST", "PUT", "HEAD"), 
 
     async def go():
         try:
-            async with session.request(method, ORIGIN0 + "/start", **kw) as resp:
+            async with session.request(method, start_url, **kw) as resp:
                 result["status"] = resp.status
                 result["history"] = [(h.status, h.closed, h._released if hasattr(h, "_released") else None) for h in resp.history]
                 await resp.read()
@@ -121,6 +128,8 @@ def chain(ctx, nhops=2, first_loc=None, methods=("GET", "POST", "PUT", "HEAD"), 
     task = asyncio.Task(go(), loop=loop)
     loop.run_ready()
     recorded = []  # (origin, method, path, headers dict, body)
+    second = []  # requests of the follow-up call (followup mode)
+    phase = {"second": False}
     garbage = []
 
     def parse_new():
@@ -164,6 +173,11 @@ def chain(ctx, nhops=2, first_loc=None, methods=("GET", "POST", "PUT", "HEAD"), 
             while c["answered"] < len(reqs):
                 m, p, hd, body = reqs[c["answered"]]
                 c["answered"] += 1
+                if phase["second"]:
+                    second.append((c["origin"], m, p, hd, body))
+                    c["proto"].data_received(b"HTTP/1.1 200 OK\r\nContent-Length: 2\r\n\r\nok")
+                    progressed = True
+                    continue
                 idx = len(recorded)
                 recorded.append((c["origin"], m, p, hd, body))
                 if idx < len(hops):
@@ -255,6 +269,40 @@ def chain(ctx, nhops=2, first_loc=None, methods=("GET", "POST", "PUT", "HEAD"), 
             return fail("history-incomplete-or-out-of-order")
         if any(not h[1] for h in result["history"]):
             return fail("intermediate-response-not-released")
+    if followup:
+        phase["second"] = True
+        defaults_before = sorted(session.headers.items())
+        res2 = {}
+
+        async def go2():
+            try:
+                async with session.get("http://c/second") as resp2:
+                    res2["status"] = resp2.status
+                    await resp2.read()
+            except Exception as e:  # noqa: BLE001
+                res2["error"] = type(e).__name__
+
+        t2 = asyncio.Task(go2(), loop=loop)
+        loop.run_ready()
+        for _ in range(4):
+            if not parse_new():
+                break
+            loop.run_ready()
+        if not t2.done():
+            t2.cancel()
+            loop.run_ready()
+            return fail("follow-up-request-never-completes")
+        for (origin, m, p, hd, body) in second:
+            leaked = sorted(k for k in ("authorization", "proxy-authorization") if hd.get(k))
+            cookie = "; ".join(hd.get("cookie", []))
+            if "hc=1" in cookie or "rc=1" in cookie:
+                leaked.append("cookie")
+            if leaked:
+                return fail("credentials-of-an-earlier-request-sent-by-the-next:" + ",".join(leaked),
+                            second=[(o, m2, p2, sorted((k, v) for k, v in h2.items() if k in ("authorization", "cookie", "proxy-authorization")))
+                                    for (o, m2, p2, h2, _b) in second])
+        if res2.get("status") != 200 or len(second) != 1:
+            return fail("follow-up-request-fails", res2=res2, n=len(second))
     ct = asyncio.Task(session.close(), loop=loop)
     loop.run_ready()
     tag = ("err:" + result["error"]) if "error" in result else f"ok:{len(recorded)}req"
@@ -276,6 +324,10 @@ def jobs(tier):
                                     locs=["same", "host", "back", "relative", "scheme-relative", "creds", "subdomain"] if quick else None,
                                     small=quick),
                         limits=lim))
+    # a second, header-less request on the same session after the chain (URL credentials / no headers= argument)
+    for loc in ("same", "host", "relative") if quick else list(LOCATIONS):
+        out.append(dict(name=f"followup-{loc}", func="chain",
+                        params=dict(nhops=1, first_loc=loc, methods=["GET", "POST"], small=True, followup=True), limits=lim))
     if not quick:
         for loc in ("host", "creds", "scheme-relative", "port", "scheme"):
             out.append(dict(name=f"chain3-{loc}", func="chain",
@@ -295,4 +347,5 @@ def bounds(tier):
     return {"chain": "2 hops (quick) / up to 3; first Location form fixed per job (all 11), later ones solver-chosen",
             "statuses": [301, 302, 303, 307, 308], "locations": sorted(LOCATIONS), "methods": ["GET", "POST", "PUT", "HEAD"],
             "credentials": "Authorization, Cookie, Proxy-Authorization headers and per-request cookies each on/off; jar pre-loaded for hosts a and b",
-            "max_redirects": [1, 2, 10]}
+            "max_redirects": [1, 2, 10],
+            "followup": "1-hop chain (first URL with or without user:secret@, headers= given or omitted), then a GET to a third origin on the same session: it carries none of the first request's credentials"}
